@@ -2,6 +2,7 @@ package lang
 
 import (
 	"fmt"
+	"sort"
 	"strconv"
 	"strings"
 )
@@ -162,6 +163,16 @@ func (v *Value) String() string {
 	}
 }
 
+// object keys in a fixed order, so that printing and iterating are repeatable
+func sortedKeys(obj map[string]*Cell) []string {
+	keys := make([]string, 0, len(obj))
+	for k := range obj {
+		keys = append(keys, k)
+	}
+	sort.Strings(keys)
+	return keys
+}
+
 // convert a value to prettified string
 func (v *Value) PrettyString(quote bool) string {
 	rootValues := make([]*Value, 0)
@@ -227,7 +238,8 @@ func (v *Value) prettyStringInteral(rootValues []*Value, quote bool, checkCircul
 		var sb strings.Builder
 		sb.WriteByte('{')
 		index := 0
-		for key, value := range *v.Obj {
+		for _, key := range sortedKeys(*v.Obj) {
+			value := (*v.Obj)[key]
 			if index > 0 {
 				sb.WriteString(", ")
 			}
